@@ -267,7 +267,10 @@ class Exec:
         """lst is duplicate-free with ghost inverse idx; member(k) characterises its elements."""
         arr, n, idx = lst.arr, lst.n, lst.idx
         kt = lst.ty.e
-        self.add_universal([kt], lambda k: z3.And(0 <= idx[k], idx[k] < n, arr[idx[k]] == k) == member(k), "injlist-member")
+        def member_fact(k):
+            self.touch(TInt, idx[k])      # the position of a member is a ground index worth instantiating at
+            return z3.And(0 <= idx[k], idx[k] < n, arr[idx[k]] == k) == member(k)
+        self.add_universal([kt], member_fact, "injlist-member")
         self.add_universal([TInt], lambda i: z3.Implies(z3.And(0 <= i, i < n), idx[arr[i]] == i), "injlist-inverse")
 
     # ------------------------------------------------------------------ facts
